@@ -1,7 +1,6 @@
 SPECIFICATION Spec
 CONSTANTS
   MaxPat = 2
-  FixD13 = FALSE
-  StrictPaths = TRUE
+  FixEmptyDest = FALSE
 CHECK_DEADLOCK FALSE
 INVARIANT C15_RegexDecision
